@@ -26,6 +26,7 @@ class RayRelDriver:
         self.traced = 0
         self.known = []
         self.shared = {}
+        self.ctx = None
 
     def stats(self):
         st = {'tracer_evaluations': self.traced}
@@ -39,6 +40,11 @@ class RayRelDriver:
         """a deviation `err` beyond `tol`: D37 if it is the near-vertical cancellation of the analytic tracer (launch within
         ~9 degrees of the vertical, deviation below 2 %), a divergence otherwise"""
         if err <= tol:
+            return
+        c = self.ctx or {}
+        # D40: the numerical tracer's first solution beyond direct_r_max (where it has to turn over) is grossly off
+        if c.get('basic') and c.get('k') == 0 and np.isfinite(c.get('rmax', np.nan)) and c['rho'] > c['rmax'] - 1.0 and err <= 0.1:
+            self.known.append(('D40', '%s: %s off by %.2g (rho = %.1f, direct_r_max = %.1f)' % (where, what, err, c['rho'], c['rmax'])))
             return
         # D37: the cancellation error grows like 1 / sin^2(theta): up to 2 % within ~9 degrees of the vertical, below 1e-4 up to 30 degrees
         if self.tracer == 'specialized' and ((s0 < 0.15 and err <= 2e-2) or (s0 < 0.5 and err <= 1e-4)):
@@ -81,13 +87,17 @@ class RayRelDriver:
             o['beta'] = float(ice.index(src[2])) * o['s0']
             o['rho'] = float(np.hypot(dst[0] - src[0], dst[1] - src[1]))
             o['rmax'] = self.rmax
+            o['k'] = k
+            o['basic'] = tcls is BasicRayTracer
+            self.ctx = o
             self.single(where + ' solution %d' % k, k, o, src, dst, ice)
             out.append(o)
         if len(out) == 2 and (src[2] != dst[2] or np.any(src[:2] != dst[:2])):
-            if not out[0]['e'][2] < out[1]['e'][2] + 1e-9:
-                raise Divergence(where + ': launch elevation', 'first solution below the second', (float(out[0]['e'][2]), float(out[1]['e'][2])))
-            if not out[0]['L'] <= out[1]['L'] * (1 + 1e-9):
-                raise Divergence(where + ': path lengths', 'first solution not longer than the second', (out[0]['L'], out[1]['L']))
+            self.ctx = out[0]
+            self.off(where, 'launch elevation: first solution below the second', float(out[1]['e'][2]), float(out[0]['e'][2]),
+                     max(0.0, float(out[0]['e'][2] - out[1]['e'][2])), 1e-9, out[0]['s0'])
+            self.off(where, 'path lengths: first solution not longer than the second', out[1]['L'], out[0]['L'],
+                     max(0.0, out[0]['L'] / out[1]['L'] - 1), 1e-9, out[0]['s0'])
         return out
 
     def reused(self, st, src, dst, ice, sols):
@@ -211,6 +221,7 @@ class RayRelDriver:
         if len(cur) != len(base):
             raise Divergence(where + ': number of solutions', len(base), len(cur))
         for k, (b, c) in enumerate(zip(base, cur)):
+            self.ctx = c
             e_, r_ = b['e'], b['r']
             if not ident:
                 e_, r_ = rot(e_, st['turns']), rot(r_, st['turns'])
